@@ -533,3 +533,38 @@ def rule_S_NULL(ctx, repo):
     ctx.ob('S-NULL', 'null_archive.__init__', ok)
     if not ok:
         ctx.fail('S-NULL', ci.qual + '.__init__', '__init__ populates', 'null_archive.__init__ passes contents to dict.__init__: a null archive must start (and stay) empty', ci.where)
+
+
+def rule_S_RED(ctx, repo):
+    """custom pickling of the cache / keymap classes carries every piece of instance state"""
+    m, ci = cache_class(repo)
+    sites = [(m, ci, ['__archive__', '__swap__'])]
+    km = repo.mod('keymaps')
+    for n in ('keymap', 'hashmap', 'stringmap', 'picklemap'):
+        c = km.classes.get(n)
+        if c is not None:
+            sites.append((km, c, None))
+    base_attrs = set()
+    kb = km.classes.get('keymap')
+    if kb is not None:
+        for fn in kb.methods.values():
+            for n in ast.walk(fn.node):
+                if isinstance(n, ast.Assign):
+                    for t in n.targets:
+                        if isinstance(t, ast.Attribute) and isinstance(t.value, ast.Name) and t.value.id in ('self', 'k'):
+                            base_attrs.add(t.attr)
+    for mod, c, attrs in sites:
+        custom = [n for n in ('__reduce__', '__reduce_ex__', '__getstate__') if n in c.methods]
+        if not custom:
+            ctx.ob('S-RED', '%s default pickling (instance __dict__ travels whole)' % c.name)
+            continue
+        need = set(attrs) if attrs is not None else set(a for a in base_attrs if a.startswith('__'))
+        for name in custom:
+            src = unparse(c.methods[name].node)
+            missing = sorted(a for a in need if ('self.' + a) not in src and ("'%s'" % a) not in src and '__dict__' not in src)
+            ctx.ob('S-RED', '%s.%s' % (c.name, name), not missing)
+            if missing:
+                ctx.fail('S-RED', '%s.%s' % (c.qual, name), 'custom pickling omits %s' % ','.join(missing),
+                         '%s.%s rebuilds the object without %s: a pickled decorated function comes back with a different %s (e.g. the parked archive of a cache '
+                         'switched off with archived(False), or the inner keymap of a chained keymap)' % (c.name, name, ', '.join(missing), 'archive binding' if c.name == 'cache' else 'key function'),
+                         c.methods[name].where)
